@@ -61,9 +61,11 @@ def check_scenario(ctx, chain, start, exp, stats, origin="s2c"):
         if exp is not None:
             want = vl.dec_data(exp["seq"]["d"])
             ok_data = True
-        if o["seq_len"] != 1:
+        if o["seq_len"] != 2:
             ctx.violation("sequence:values:%d" % o["seq_len"], detail)
             return None
+        if o["seq2"] != o["seq"]:
+            ctx.violation("seq:not-repeatable:same-flow:" + tag, dict(detail, first=o["seq"], second=o["seq2"]))
         # ---- same data
         if ok_data and (o["seq"][0] != want or o["compose"][0] != want):
             ctx.violation("compose:data:" + tag, dict(detail, expected=want, sequence=o["seq"][0],
@@ -90,6 +92,9 @@ def check_scenario(ctx, chain, start, exp, stats, origin="s2c"):
                 continue
             if var.get("name") != o["names"][-1]:
                 ctx.violation("%s:name:%s" % (route, tag), dict(detail, observed=var.get("name")))
+            if exp is not None and not vl.contains(var, vl.dec(exp["lastvc"])):
+                ctx.violation("%s:description:attrs-of-last:%s" % (route, tag),
+                              dict(detail, required=vl.dec(exp["lastvc"]), observed=var))
             if exp is not None and typed:
                 ev = vl.dec(exp[route if route == "seq" else "compose"]["c"])["variable"]
                 prev = _prev_types(startc)
